@@ -174,9 +174,15 @@ def mk_modifier(m):
 
 def mk_effect(e):
     from eos.const.eos import EffectBuildStatus
+    from eos.const.eve import EffectCategoryId
     from eos.eve_obj.effect.effect import Effect
+    # the converter hands over the raw category number; eos's own custom effects (and any caller that
+    # builds objects by hand) use the enumeration member: both must survive persistence alike
+    cat = e[1]
+    if isinstance(e[0], int) and e[0] % 2 == 0:
+        cat = _enum(EffectCategoryId, cat)
     return Effect(
-        effect_id=e[0], category_id=e[1], is_offensive=e[2], is_assistance=e[3],
+        effect_id=e[0], category_id=cat, is_offensive=e[2], is_assistance=e[3],
         duration_attr_id=e[4], discharge_attr_id=e[5], range_attr_id=e[6],
         falloff_attr_id=e[7], tracking_speed_attr_id=e[8],
         fitting_usage_chance_attr_id=e[9], resist_attr_id=e[10],
@@ -284,6 +290,21 @@ def handler_view(h, probes):
             v['buffs'][i] = sorted((canon(n_buff(b)) for b in s), key=repr)
         except CacheHandlerError:
             v['buffs'][i] = 'absent'
+    # what the served effect objects *do* with their fields (decisions taken by comparing them with
+    # enumeration members): compared between writer and reader only
+    v['behaviour'] = {}
+    for i in probes['effects']:
+        try:
+            e = h.get_effect(i)
+        except CacheHandlerError:
+            continue
+        def b(f):
+            try:
+                return repr(plain(f()))
+            except Exception as x:  # noqa
+                return 'raise ' + type(x).__name__
+        v['behaviour'][i] = [b(lambda: e.is_projectable), b(lambda: e._state),
+                             b(lambda: len(e.local_modifiers)), b(lambda: len(e.projected_modifiers))]
     for kind, name in (('types', 'type'), ('attrs', 'attr'), ('effects', 'effect'),
                        ('buffs', 'buff_template')):
         st = getattr(h, '_JsonCacheHandler__%s_storage' % name, None)
